@@ -519,22 +519,52 @@ def ancestorsOf (chain : Chain) : Nat → Nat → Nat → List Block
     | none => []
     | some a => a :: ancestorsOf chain fuel a.header.parentHash (subU64 number 1)
 
-/-- **Spec**: uncle `u` (the `i`-th of `block`) is acceptable: not rewarded before (neither in an ancestor, nor the block
-    itself, nor earlier in this block), not an ancestor, its parent is one of the seven ancestors but not the block's own
-    parent, and it is a valid header relative to that parent. -/
-def UncleOk (S : DiffParams) (cfg : Config) (sealBad : Header → Bool) (chain : Chain) (block : Block) (i : Nat) (u : Header) : Prop :=
+/-- **Spec**: uncle `u` (preceded in the block's uncle list by `earlier`) is acceptable: not rewarded before (neither in
+    an ancestor, nor the block itself, nor earlier in this block), not an ancestor, its parent is one of the seven ancestors
+    but not the block's own parent, and it is a valid header relative to that parent (uncles are not held against the clock). -/
+def UncleOk (S : DiffParams) (cfg : Config) (sealBad : Header → Bool) (chain : Chain) (block : Block) (earlier : List Header) (u : Header) : Prop :=
   let ancs := ancestorsOf chain 7 block.header.parentHash (subU64 block.header.number 1)
   (∀ a ∈ ancs, ∀ v ∈ a.uncles, v.hash ≠ u.hash) ∧
   u.hash ≠ block.header.hash ∧
-  (∀ j, j < i → ∀ v, block.uncles[j]? = some v → v.hash ≠ u.hash) ∧
+  (∀ v ∈ earlier, v.hash ≠ u.hash) ∧
   (∀ a ∈ ancs, a.header.hash ≠ u.hash) ∧
   u.parentHash ≠ block.header.parentHash ∧
-  ∃ p, lookupAnc ((ancs.map (·.header)).reverse) u.parentHash = some p ∧
-    HeaderValid S cfg 0 sealBad u p true true
+  (match lookupAnc ((ancs.map (·.header)).reverse) u.parentHash with
+   | some p => HeaderValid S cfg 0 sealBad u p true true
+   | none => False)
 
-/-- **Spec**: the uncle list of a block is acceptable. -/
+/-- all uncles of a list are acceptable, each relative to the ones before it. -/
+def UnclesOkFrom (S : DiffParams) (cfg : Config) (sealBad : Header → Bool) (chain : Chain) (block : Block) : List Header → List Header → Prop
+  | _, [] => True
+  | earlier, u :: rest => UncleOk S cfg sealBad chain block earlier u ∧ UnclesOkFrom S cfg sealBad chain block (earlier ++ [u]) rest
+
+/-- **Spec**: the uncle list of a block is acceptable: at most 2 uncles (1 from HF5), each acceptable. -/
 def UnclesValid (S : DiffParams) (cfg : Config) (sealBad : Header → Bool) (chain : Chain) (block : Block) : Prop :=
   block.uncles.length ≤ (if cfg.isHF 5 block.header.number then 1 else 2) ∧
-  ∀ i u, block.uncles[i]? = some u → UncleOk S cfg sealBad chain block i u
+  UnclesOkFrom S cfg sealBad chain block [] block.uncles
+
+instance (S : DiffParams) (cfg : Config) (now : Nat) (sealBad : Header → Bool) (h parent : Header) (uncle doSeal : Bool) :
+    Decidable (HeaderValid S cfg now sealBad h parent uncle doSeal) := by
+  unfold HeaderValid; exact inferInstance
+
+instance (S : DiffParams) (cfg : Config) (sealBad : Header → Bool) (chain : Chain) (block : Block) (earlier : List Header) (u : Header) :
+    Decidable (UncleOk S cfg sealBad chain block earlier u) := by
+  unfold UncleOk
+  simp only
+  split <;> exact inferInstance
+
+def unclesOkFromDec (S : DiffParams) (cfg : Config) (sealBad : Header → Bool) (chain : Chain) (block : Block) :
+    (earlier us : List Header) → Decidable (UnclesOkFrom S cfg sealBad chain block earlier us)
+  | _, [] => isTrue trivial
+  | earlier, u :: rest =>
+    have := unclesOkFromDec S cfg sealBad chain block (earlier ++ [u]) rest
+    by unfold UnclesOkFrom; exact inferInstance
+
+instance (S : DiffParams) (cfg : Config) (sealBad : Header → Bool) (chain : Chain) (block : Block) (earlier us : List Header) :
+    Decidable (UnclesOkFrom S cfg sealBad chain block earlier us) := unclesOkFromDec S cfg sealBad chain block earlier us
+
+instance (S : DiffParams) (cfg : Config) (sealBad : Header → Bool) (chain : Chain) (block : Block) :
+    Decidable (UnclesValid S cfg sealBad chain block) := by
+  unfold UnclesValid; exact inferInstance
 
 end Aqv.Consensus
